@@ -662,6 +662,11 @@ class Cov(SingleAggregation):
     def combine_kwargs(self) -> dict:
         return {"levels": self.levels}
 
+    def _simplify_up(self, parent, dependents):
+        # Every input column is also a row of the result: a selection of
+        # columns of the result still needs all of them
+        return
+
 
 class Corr(Cov):
     std = True
